@@ -455,6 +455,9 @@ def check_case(line, meta, hout, dline, dout, stats, notes):
             notes["size_mismatch:weights_not_copied"] = notes.get("size_mismatch:weights_not_copied", 0) + 1
         if o["s_lik_valid"]:
             notes["size_mismatch:likelihood_reported"] = notes.get("size_mismatch:likelihood_reported", 0) + 1
+    if (faulty or not divides) and o["s_lik_valid"]:
+        # stale members: a likelihood is reported although this call corrected nothing (recorded; see design note)
+        notes["early_return:likelihood_reported_anyway"] = notes.get("early_return:likelihood_reported_anyway", 0) + 1
     if faulty:
         # outside C05 (C12): recorded only
         keyn = "fault:belief_identical" if (o["s_mean"] == c["means"] and o["s_cov"] == c["covs"]) else "fault:belief_changed"
